@@ -12,21 +12,12 @@ import (
 // It's pretty much a direct port of the IndentAwareLexer.cs file of YarnSpinner from C# to Go.
 type IndentAwareLexer struct {
 	*antlr.BaseLexer
-	hitEOF        bool
 	pendingTokens container.Queue[antlr.Token]
 	indents       container.Stack[int]
 }
 
 // NextToken returns a token from the lexer source i.e., match a token on the char stream.
 func (ial *IndentAwareLexer) NextToken() antlr.Token {
-	if ial.hitEOF && ial.pendingTokens.Size() > 0 {
-		return ial.pendingTokens.Dequeue()
-	}
-	if ial.GetInputStream().Size() == 0 {
-		ial.hitEOF = true
-		return antlr.NewCommonToken(nil, antlr.TokenEOF, antlr.TokenDefaultChannel, -1, -1)
-	}
-
 	ial.checkNextToken()
 	if ial.pendingTokens.Size() > 0 {
 		return ial.pendingTokens.Dequeue()
